@@ -5,6 +5,7 @@ package authz
 import (
 	"encoding/json"
 	"fmt"
+	"math/rand"
 	"strings"
 	"sync"
 	"time"
@@ -121,6 +122,14 @@ func RunC03(c *core.Ctx) {
 		brokers[v] = b
 	}
 	var n, expected, nontrivial, granted, known int64
+	// cases kept for the concurrent stage (per license): key string, request, permission, the verdict the property prescribes
+	type concCase struct {
+		ks, ch string
+		perm   uint8
+		want   bool
+		cs     Case
+	}
+	keep := map[int][]concCase{}
 	check := func(js string) {
 		var cs Case
 		if err := json.Unmarshal([]byte(js), &cs); err != nil {
@@ -147,6 +156,9 @@ func RunC03(c *core.Ctx) {
 			}
 			switch {
 			case real == cs.Want:
+				if !cs.Key.Banned && cs.Key.Expiry != "future" && (cs.Want || n%3 == 0) && len(keep[v]) < 6000 {
+					keep[v] = append(keep[v], concCase{ks, cs.Req.String(), permOf(cs.Op), cs.Want, cs})
+				}
 			case real == cs.Code && cs.Tag != "" && c.Known(cs.Tag):
 				known++
 			default:
@@ -218,6 +230,56 @@ func RunC03(c *core.Ctx) {
 	}
 	wg.Wait()
 	c.Add("expiry_while_in_use_histories", 3)
+	// concurrent use: the broker authorizes on every connection's goroutine at once, with one cipher / key generator /
+	// contract provider per broker.  The verdict for a (key, channel, operation) does not depend on what other
+	// connections present at the same moment: every verdict of the grid, asked again by 16 goroutines in random order,
+	// must be the one the property prescribes.
+	var concN, concBad int64
+	var cmu sync.Mutex
+	for v := 1; v <= 3; v++ {
+		cases := keep[v]
+		if len(cases) == 0 {
+			continue
+		}
+		b := brokers[v]
+		rounds := 40000
+		if !c.Quick() {
+			rounds = 400000
+		}
+		var cwg sync.WaitGroup
+		for g := 0; g < 16; g++ {
+			cwg.Add(1)
+			go func(g int) {
+				defer cwg.Done()
+				r := rand.New(rand.NewSource(c.Seed*100 + int64(g)))
+				var window [3]concCase
+				for i := 0; i < rounds; i++ {
+					// a sliding working set of three keys per goroutine (plus the other goroutines' sets): whatever the
+					// broker memoizes per key, salt or contract is hit, evicted and refilled all the time
+					if i%192 == 0 {
+						for j := range window {
+							window[j] = cases[r.Intn(len(cases))]
+						}
+					}
+					x := window[r.Intn(len(window))]
+					_, _, real := b.Svc.Authorize(security.ParseChannel([]byte(x.ks+"/"+x.ch)), x.perm)
+					if real != x.want {
+						cmu.Lock()
+						concBad++
+						if concBad <= 3 {
+							replay, _ := json.Marshal(map[string]any{"e": "concurrent-case", "case": x.cs, "license": v, "key": x.ks, "channel": x.ch, "real": real, "goroutines": 16})
+							c.Violation(fmt.Sprintf("Authorize(license v%d) = %v under concurrent use (16 goroutines presenting different keys), the property prescribes %v (and the same call alone returns that): key target %q perms %v, op %s on %q",
+								v, real, x.want, x.cs.Key.Target.String(), x.cs.Key.Perms, x.cs.Op, x.ch), replay)
+						}
+						cmu.Unlock()
+					}
+				}
+			}(g)
+		}
+		cwg.Wait()
+		concN += int64(16 * rounds)
+	}
+	c.Add("concurrent_authorizations", concN)
 	nontrivial = granted
 	c.Set("evaluations", n*3)
 	c.Set("cases", n)
